@@ -547,3 +547,29 @@ def check_golden_tables():
         if n not in ("D0",) and "c" in (p.quarks or "").lower():
             bad.append((n, "charm quark content: radius 5.0"))
     return bad
+
+
+# an option text that switches the cartesian option on and then cannot be read to the end (a decay line names an unknown resonance):
+# whatever the library raises for it, a later read of another text must not notice that this one was ever tried
+POISON_TEXT = ("EventType D0 K- pi+ pi+ pi-\n"
+               "FastCoherentSum::UseCartesian 1\n"
+               "D0{K*(892)bar0{K-,pi+},rho(770)0{pi+,pi-}} 0 0.5 0.1 0 0.3 0.1\n"
+               "D0{Zork(999)0{K-,pi+},rho(770)0{pi+,pi-}} 0 1 0 0 2 0\n")
+
+
+# the charge-conjugate spelling of every pool name (AmpGen style: 'bar' marks the antiparticle of a neutral or strange/charmed state)
+MIRROR = {"D0": "Dbar0", "K-": "K+", "K+": "K-", "pi+": "pi-", "pi-": "pi+", "K*(892)bar0": "K*(892)0", "K*(892)0": "K*(892)bar0",
+          "K(1)(1270)bar-": "K(1)(1270)+", "K(1)(1270)+": "K(1)(1270)bar-", "K(1)(1400)bar-": "K(1)(1400)+", "K(1460)bar-": "K(1460)+",
+          "K(2)*(1430)bar-": "K(2)*(1430)+", "a(1)(1260)+": "a(1)(1260)-", "a(1)(1260)-": "a(1)(1260)+", "K(0)*(1430)bar0": "K(0)*(1430)0"}
+POOL.update({"Dbar0": -421, "K(1)(1400)+": 20323, "K(1460)+": 100321, "K(2)*(1430)+": 325, "K(0)*(1430)0": 10311})
+
+
+def mirror_model(model):
+    """The charge-conjugate model: every particle name of the event type and of the decay trees replaced by its conjugate spelling."""
+    def node(n):
+        return Node(MIRROR.get(n.name, n.name), n.spin, n.ls, None if n.kids is None else [node(k) for k in n.kids])
+
+    out = dict(model)
+    out["event"] = [MIRROR.get(x, x) for x in model["event"]]
+    out["lines"] = [dict(ln, node=node(ln["node"])) for ln in model["lines"]]
+    return out
